@@ -1,14 +1,20 @@
 //! C10: the frontend never panics on any query text.
 //!
 //! usage: tfh_c10 c10 --seed S --n N --out DIR [--oracle-only]
-//!        tfh_c10 probe SCHEMA(world|path) QUERY...   (verdict of frontend::parse + Gallina AST)
+//!        tfh_c10 probe SCHEMA(world|edgecases|numbers|..|path/to/schema.graphql) QUERY...
+//!            (verdict of frontend::parse, classes, parse_document rendering, Gallina AST;
+//!             C10_PRINT_SCHEMA=1 also prints the schema as a SchemaAst `doc`)
 //!
 //! ORACLE (the property itself, on raw text): catch_unwind(frontend::parse(schema, text)) must not
-//! panic.  A panic on a text whose PARSED document lies in a recorded known class (and whose panic
-//! message is that class's) is `oracle_fail_class`; any other panic is `oracle_fail`.
+//! panic.  A panic on a text whose PARSED document lies in a recorded known class (syntactic predicate
+//! `known_classes`) and whose panic file/message is that class's (`CLASS_SITES`) is `oracle_fail_class`;
+//! any other panic is `oracle_fail` with the text as replay.  Additionally every observed panic must
+//! satisfy the Coq predicate `known_parse` (spec case), and every schema used must satisfy `schema_okb`.
 //! TIE: the text is parsed by the real async_graphql_parser::parse_query, the ExecutableDocument is
-//! printed as a `document` of QueryAst.v, and the real parse_document / frontend results are compared
-//! with the Coq model (QueryParse.v: parse_doc; Front.v: front).
+//! printed as a `document` of QueryAst.v, and compared are (1) the real parse_document vs QueryParse.v
+//! `parse_doc` (complete Query / ParseError with strings / PANIC), (2) frontend::parse_doc vs Front.v
+//! `front_doc` (complete IRQuery / ordered FrontendErrors with strings / PANIC), (3) IndexedQuery::try_from.
+//! Schemas: harness world schema, harness `edgecases` schema, /repo test_data/schemas/*.graphql.
 #[path = "../coq.rs"]
 mod coq;
 #[path = "../out.rs"]
